@@ -34,6 +34,7 @@ pub struct Api {
     pub call_export: unsafe extern "C" fn(u32, *const (), *const u64, *mut u64),
 }
 
+#[derive(Clone, Copy)]
 pub struct Lib {
     pub handle: *mut c_void,
     pub api: Api,
